@@ -14,7 +14,7 @@ pub fn def() -> PropDef {
         job_level,
         run_job,
         replay,
-        rule: "chord tables: ALL sets of 1-3 chords over the participant subsets {ab, ac, bc, abc} (thorough: also 4 participants) as defchordsv2 (x release rule {first-release, all-released} x {enabled, all disabled on the held layer, each single chord disabled on the held layer while the others stay enabled}) and as a v1 defchords group (with all singletons defined); every chord has its own output key. Structured histories per table: for EVERY non-empty subset S of the participants (alone, and with a non-chord key z inserted at every position): EVERY permutation of presses, EVERY gap vector from {0,1,T-1,T,T+1}, then EVERY release permutation (gap 1), then settle. Generic histories: ALL physically consistent histories of D steps over press/release of a,b,c,z + tick 1 + tick T+1. Oracle ChordSpec: (exact) if S is a defined chord and all of S is pressed within the timeout (boundary T: either), exactly that chord's action is output once and no participant's own action; (none) if S contains no defined chord as a subset, every key's own action is output once, in press order; (always) accounting: the participants of the chords that fired plus the keys whose own action was output are exactly the keys pressed, each once (nothing swallowed, nothing doubled), own actions of non-chord keys keep their order; with the chords disabled on the active layer no chord fires; the chord action goes up no later than T+8+2*(number of events) ticks (processing latency of queued releases) after the last participant's release, for all-released not before it, for first-release within T+8 ticks of the first release; nothing is held after settle.",
+        rule: "chord tables: ALL sets of 1-3 chords over the participant subsets {ab, ac, bc, abc} (thorough: also 4 participants) as defchordsv2 (x release rule {first-release, all-released} x {enabled, all disabled on the held layer, each single chord disabled on the held layer while the others stay enabled}) and as a v1 defchords group (with all singletons defined); every chord has its own output key. Structured histories per table: for EVERY non-empty subset S of the participants (alone, and with a non-chord key z inserted at every position): EVERY permutation of presses, EVERY gap vector from {0,1,T-1,T,T+1}, then EVERY release permutation (1 tick apart; for the all-0 and all-1 press-gap vectors also 45 ticks apart, which shows which key each output is bound to), then settle. Quick adds five v1 tables over four participants (decomposition shapes; press gaps {0,1}, no foreign key). Generic histories: ALL physically consistent histories of D steps over press/release of a,b,c,z + tick 1 + tick T+1. Oracle ChordSpec: (exact) if S is a defined chord and all of S is pressed within the timeout (boundary T: either), exactly that chord's action is output once and no participant's own action; (none) if S contains no defined chord as a subset, every key's own action is output once, in press order; (always) accounting: the participants of the chords that fired plus the keys whose own action was output are exactly the keys pressed, each once (nothing swallowed, nothing doubled), own actions of non-chord keys keep their order; with the chords disabled on the active layer no chord fires; the chord action goes up no later than T+8+2*(number of events) ticks (processing latency of queued releases) after the last participant's release, for all-released not before it, for first-release within T+8 ticks of the first release; nothing is held after settle; a key whose own action was output (alone or as a decomposed part) goes up no later than the latency bound after THAT key's release.",
         assumptions: &["v1 release timing beyond 'not later than all participants released' is documented as inconsistent and not checked", "chords-v2-min-idle (5 ticks after a non-chord activation) makes chord firing optional within that window in generic histories; accounting still holds"],
         required_level,
         min_outcomes: 3,
@@ -35,6 +35,8 @@ struct Table {
     first_release: bool,
     /// bit i set = chord i is disabled on layer nav (and the histories run with nav held)
     disabled: u8,
+    /// light structured family: press gaps {0,1} only and no foreign key (used for the 4-participant tables of the quick tier)
+    light: bool,
 }
 
 impl Table {
@@ -103,16 +105,23 @@ fn tables(tier: Tier) -> Vec<Table> {
         }
         for cs in chordsets {
             for first_release in [false, true] {
-                v.push(Table { v2: true, nparts: np, chords: cs.clone(), first_release, disabled: 0 });
+                v.push(Table { v2: true, nparts: np, chords: cs.clone(), first_release, disabled: 0, light: false });
             }
             // all chords disabled on the held layer; each single chord disabled while the others stay enabled
-            v.push(Table { v2: true, nparts: np, chords: cs.clone(), first_release: false, disabled: (1u8 << cs.len()) - 1 });
+            v.push(Table { v2: true, nparts: np, chords: cs.clone(), first_release: false, disabled: (1u8 << cs.len()) - 1, light: false });
             if cs.len() >= 2 {
                 for i in 0..cs.len() {
-                    v.push(Table { v2: true, nparts: np, chords: cs.clone(), first_release: false, disabled: 1 << i });
+                    v.push(Table { v2: true, nparts: np, chords: cs.clone(), first_release: false, disabled: 1 << i, light: false });
                 }
             }
-            v.push(Table { v2: false, nparts: np, chords: cs.clone(), first_release: false, disabled: 0 });
+            v.push(Table { v2: false, nparts: np, chords: cs.clone(), first_release: false, disabled: 0, light: false });
+        }
+    }
+    if tier == Tier::Quick {
+        // v1 decomposition shapes that need four participants (a pressed set that is undefined but
+        // contained in a larger chord stays pending and is decomposed into several parts)
+        for cs in [vec![0b0011u8, 0b1111], vec![0b1111], vec![0b0011, 0b1100, 0b1111], vec![0b0111, 0b1111], vec![0b0110, 0b1111]] {
+            v.push(Table { v2: false, nparts: 4, chords: cs, first_release: false, disabled: 0, light: true });
         }
     }
     v
@@ -174,7 +183,7 @@ fn perms(n: usize) -> Vec<Vec<usize>> {
 
 struct Obs {
     fired: Vec<(usize, u64, Option<u64>)>, // chord index, down stamp, up stamp
-    singles: Vec<(usize, u64)>,            // key index (0..3 participants, 9 = z), stamp
+    singles: Vec<(usize, u64, Option<u64>)>, // key index (0..3 participants, 9 = z), down stamp, up stamp
     held: Vec<String>,
     tstr: String,
 }
@@ -189,14 +198,18 @@ fn observe(s: &Sim, nchords: usize) -> Obs {
                 if let Some(ci) = CHORD_OUTN[..nchords].iter().position(|c| c == k) {
                     fired.push((ci, *t, None));
                 } else if let Some(pi) = PARTN.iter().position(|p| p == k) {
-                    singles.push((pi, *t));
+                    singles.push((pi, *t, None));
                 } else if k == "Z" {
-                    singles.push((9, *t));
+                    singles.push((9, *t, None));
                 }
             }
             Out::Up(k) => {
                 if let Some(ci) = CHORD_OUTN[..nchords].iter().position(|c| c == k) {
                     if let Some(f) = fired.iter_mut().rev().find(|f| f.0 == ci && f.2.is_none()) {
+                        f.2 = Some(*t);
+                    }
+                } else if let Some(pi) = PARTN.iter().position(|p| p == k).or(if k == "Z" { Some(9) } else { None }) {
+                    if let Some(f) = singles.iter_mut().rev().find(|f: &&mut (usize, u64, Option<u64>)| f.0 == pi && f.2.is_none()) {
                         f.2 = Some(*t);
                     }
                 }
@@ -223,7 +236,7 @@ fn judge_structured(t: &Table, presses: &[(usize, u64)], releases: &[(usize, u64
             }
         }
     }
-    for (k, _) in &o.singles {
+    for (k, _, _) in &o.singles {
         accounted.push(*k);
     }
     let mut want: Vec<usize> = presses.iter().map(|p| p.0).collect();
@@ -294,6 +307,15 @@ fn judge_structured(t: &Table, presses: &[(usize, u64)], releases: &[(usize, u64
             }
         }
     }
+    // a key whose own action was output (no chord, or a decomposed part of one key) is an ordinary
+    // key from then on: its output goes up when THAT key is released, not when some other key is
+    for (k, dn, up) in &o.singles {
+        let (Some(up), Some(rel)) = (up, releases.iter().find(|r| r.0 == *k).map(|r| r.1)) else { continue };
+        let slack = T as u64 + 8 + 2 * (presses.len() as u64 + releases.len() as u64);
+        if *up > rel.max(*dn) + slack {
+            return Some(("own-action-released-too-late".into(), format!("key {k}'s own action went up at {up} although the key was released at {rel} (+{slack} allowed); trace [{}]", o.tstr)));
+        }
+    }
     None
 }
 
@@ -302,12 +324,13 @@ fn run_structured(t: &Table, st: &mut Stats) -> Vec<Violation> {
     let mut found: Vec<Violation> = vec![];
     let codes: Vec<u16> = PART[..t.nparts].iter().map(|k| kc(k)).collect();
     let (zc, nc) = (kc("z"), kc("n"));
-    let gaps = [0u32, 1, T - 1, T, T + 1];
+    let all_gaps = [0u32, 1, T - 1, T, T + 1];
+    let gaps: &[u32] = if t.light { &all_gaps[..2] } else { &all_gaps[..] };
     for smask in 1u8..(1 << t.nparts) {
         let skeys: Vec<usize> = (0..t.nparts).filter(|b| smask & (1 << b) != 0).collect();
         for pp in perms(skeys.len()) {
             // z insertion positions: None or 0..=len
-            for zpos in std::iter::once(None).chain((0..=skeys.len()).map(Some)) {
+            for zpos in std::iter::once(None).chain((0..=skeys.len()).map(Some)).take(if t.light { 1 } else { usize::MAX }) {
                 let mut order: Vec<usize> = pp.iter().map(|i| skeys[*i]).collect();
                 if let Some(z) = zpos {
                     order.insert(z, 9);
@@ -316,7 +339,10 @@ fn run_structured(t: &Table, st: &mut Stats) -> Vec<Violation> {
                 let ng = order.len() - 1;
                 let mut gv = vec![0usize; ng];
                 loop {
-                    for rp in perms(order.len()) {
+                    // releases 1 tick apart; and, for the all-0 / all-1 press-gap vectors, 45 ticks apart
+                    // (longer than any processing latency: shows which key each output is bound to)
+                    let rel_gaps: &[u32] = if gv.iter().all(|g| *g == 0) || gv.iter().all(|g| *g == 1) { &[1, 45] } else { &[1] };
+                    for (rp, rel_gap) in perms(order.len()).into_iter().flat_map(|rp| rel_gaps.iter().map(move |g| (rp.clone(), *g))) {
                         if found.len() >= 4 {
                             return found;
                         }
@@ -346,13 +372,13 @@ fn run_structured(t: &Table, st: &mut Stats) -> Vec<Violation> {
                             let k = order[*ri];
                             h.push(Ev::R(if k == 9 { zc } else { codes[k] }));
                             releases.push((k, now));
-                            h.push(Ev::T(1));
-                            now += 1;
+                            h.push(Ev::T(rel_gap));
+                            now += rel_gap as u64;
                         }
                         if layer_held {
                             h.push(Ev::R(nc));
                         }
-                        h.push(Ev::T(30));
+                        h.push(Ev::T(40));
                         st.evaluations += 1;
                         crate::par::announce(&cfg, &h);
                         match crate::sim::run_fresh(&cfg, &h) {
